@@ -3,8 +3,8 @@ package props
 import (
 	"fmt"
 	"go/ast"
+	"go/token"
 	"go/types"
-	"sort"
 	"strings"
 
 	"siotcheck/kit"
@@ -46,6 +46,7 @@ type c19Model struct {
 	Transports []*mbTransport
 	Decoders   []*kit.Func // response decoders: methods of the PDU type returning ([]T, error)
 	Clients    []*kit.Func // client request methods
+	accepted   map[*kit.Func]acceptedResult
 }
 
 func newC19Model(c *kit.Ctx) *c19Model {
@@ -207,62 +208,184 @@ func c19R3(c *kit.Ctx, m *c19Model) {
 // ---------------------------------------------------------------------------
 // R5 count agreement
 
-// acceptedCodes returns the function codes a response decoder lets through.
-func (m *c19Model) acceptedCodes(f *kit.Func) []int64 {
+// acceptedCodes evaluates a response decoder for each of the 256 function
+// codes (ample data, a small declared count) and returns those for which it
+// can return without error.  ok=false when an evaluation cannot be followed.
+func (m *c19Model) acceptedCodes(f *kit.Func) (codes []int64, ok bool) {
+	if r, done := m.accepted[f]; done {
+		return r.codes, r.ok
+	}
+	ok = true
+	for fc := int64(0); fc < 256 && ok; fc++ {
+		ip := &kit.Interp{P: m.c.P, F: f, MaxSteps: 20000}
+		code := fc
+		ip.Input = func(key string, t types.Type) (kit.IVal, bool) {
+			switch {
+			case strings.HasPrefix(key, "elem:"):
+				return kit.IVal{K: 'i', I: 2}, true
+			case strings.HasPrefix(key, "call:"):
+				return kit.IVal{}, false
+			case t != nil && types.Identical(t, m.FcType):
+				return kit.IVal{K: 'i', I: code}, true
+			case t != nil && mbIsByteSlice(t):
+				return kit.IVal{K: 's', L: 300, C: 300, Env: true}, true
+			}
+			return kit.IVal{}, false
+		}
+		res := ip.Run()
+		m.c.AddValuations(1)
+		if len(res.Unsupported) > 0 || res.Overflow || len(res.Exits) == 0 || len(res.Crashes) > 0 {
+			ok = false
+			break
+		}
+		accepts := false
+		for _, e := range res.Exits {
+			if e.Tainted || len(e.Vals) == 0 {
+				ok = false
+				break
+			}
+			switch last := e.Vals[len(e.Vals)-1]; last.K {
+			case 'n':
+				accepts = true
+			case 'e', 'i':
+			default:
+				ok = false
+			}
+		}
+		if accepts {
+			codes = append(codes, fc)
+		}
+	}
+	if !ok {
+		codes = nil
+	}
+	if m.accepted == nil {
+		m.accepted = map[*kit.Func]acceptedResult{}
+	}
+	m.accepted[f] = acceptedResult{codes, ok}
+	return codes, ok
+}
+
+type acceptedResult struct {
+	codes []int64
+	ok    bool
+}
+
+// returnedLen expresses the length of the slice a function returns on its
+// success path as a linear form over its inputs: a local made by
+// make([]T, n), or the result of a module function applied to a slice whose
+// own returned length is a function of its argument's length.
+func (m *c19Model) returnedLen(f *kit.Func, depth int) (lin *kit.Lin, env *kit.Env, text string, why string) {
+	c := m.c
 	info := f.Info()
-	var out []int64
-	ast.Inspect(f.Body, func(n ast.Node) bool {
-		sw, ok := n.(*ast.SwitchStmt)
-		if !ok || sw.Tag == nil {
+	b := kit.AnalyseBounds(c.P, f)
+	sig := f.Obj.Type().(*types.Signature)
+	var ret *ast.ReturnStmt
+	n := 0
+	ast.Inspect(f.Body, func(x ast.Node) bool {
+		if _, isLit := x.(*ast.FuncLit); isLit {
+			return false
+		}
+		r, ok := x.(*ast.ReturnStmt)
+		if !ok || len(r.Results) != sig.Results().Len() {
 			return true
 		}
-		sel, ok := ast.Unparen(sw.Tag).(*ast.SelectorExpr)
-		if !ok {
+		if sig.Results().Len() == 2 && !kit.IsNilIdent(info, r.Results[1]) {
 			return true
 		}
-		if s, ok := info.Selections[sel]; !ok || s.Obj() != m.FcField {
-			return true
-		}
-		for _, st := range sw.Body.List {
-			cc := st.(*ast.CaseClause)
-			returns := false
-			for _, b := range cc.Body {
-				ast.Inspect(b, func(x ast.Node) bool {
-					if _, ok := x.(*ast.ReturnStmt); ok {
-						returns = true
-					}
-					return true
-				})
-			}
-			if returns {
-				continue
-			}
-			for _, e := range cc.List {
-				if v, ok := kit.ConstInt(info, e); ok {
-					out = append(out, v)
-				}
-			}
-		}
+		ret = r
+		n++
 		return true
 	})
-	sort.Slice(out, func(i, j int) bool { return out[i] < out[j] })
-	return out
+	if n != 1 {
+		return nil, nil, "", fmt.Sprintf("%s has %d success returns", f.Name, n)
+	}
+	e := ast.Unparen(ret.Results[0])
+	if id, ok := e.(*ast.Ident); ok {
+		v := kit.ObjOf(info, id)
+		var mk *ast.AssignStmt
+		nDefs := 0
+		ast.Inspect(f.Body, func(x ast.Node) bool {
+			as, ok := x.(*ast.AssignStmt)
+			if !ok {
+				return true
+			}
+			for i, l := range as.Lhs {
+				if kit.ObjOf(info, l) == v && i < len(as.Rhs) {
+					nDefs++
+					if call, ok := ast.Unparen(as.Rhs[i]).(*ast.CallExpr); ok {
+						if bi, ok := kit.Callee(info, call).(*types.Builtin); ok && bi.Name() == "make" && len(call.Args) == 2 {
+							mk = as
+						}
+					}
+				}
+			}
+			return true
+		})
+		if mk == nil || nDefs != 1 {
+			return nil, nil, "", fmt.Sprintf("the slice returned by %s is not a single make([]T, n)", f.Name)
+		}
+		call := ast.Unparen(mk.Rhs[0]).(*ast.CallExpr)
+		fs, _ := b.FactsBefore(mk)
+		t := b.Term(call.Args[1])
+		if fs == nil || t == nil {
+			return nil, nil, "", "the size of the returned slice is not trackable"
+		}
+		env = b.EnvAt(fs, nil)
+		return env.LinOf(t), env, f.Str(call.Args[1]), ""
+	}
+	if call, ok := e.(*ast.CallExpr); ok && len(call.Args) == 1 && depth < 2 {
+		cf := f.CalleeFunc(call)
+		if cf == nil || cf.Decl == nil || len(cf.Params()) != 1 {
+			return nil, nil, "", fmt.Sprintf("%s returns the result of a call that cannot be followed", f.Name)
+		}
+		inner, _, itext, why := m.returnedLen(cf, depth+1)
+		if why != "" {
+			return nil, nil, "", why
+		}
+		// inner must be a function of len(parameter) only
+		cb := kit.AnalyseBounds(c.P, cf)
+		pt := cb.Term(paramIdent(cf))
+		atoms := inner.Atoms()
+		if pt == nil || len(atoms) != 1 || atoms[0].K != kit.TLen || atoms[0].Args[0].Key() != pt.Key() {
+			return nil, nil, "", fmt.Sprintf("the length returned by %s (%s) is not a function of the length of its argument", cf.Name, inner.Pretty())
+		}
+		fs, _ := b.FactsBefore(ret)
+		if fs == nil {
+			return nil, nil, "", "no facts at the return"
+		}
+		env = b.EnvAt(fs, nil)
+		argLen := b.LenLinOf(env, call.Args[0])
+		if argLen == nil {
+			return nil, nil, "", fmt.Sprintf("the length of `%s` is not trackable", f.Str(call.Args[0]))
+		}
+		return env.Subst(inner, atoms[0].Key(), argLen), env, cf.Name + "(" + f.Str(call.Args[0]) + ") → " + itext, ""
+	}
+	return nil, nil, "", fmt.Sprintf("`%s` is neither a local slice nor a call of a module function", f.Str(e))
+}
+
+// paramIdent returns the identifier of the first parameter of f.
+func paramIdent(f *kit.Func) ast.Expr {
+	for _, fl := range f.Type.Params.List {
+		for _, nm := range fl.Names {
+			return nm
+		}
+	}
+	return nil
 }
 
 func c19R5(c *kit.Ctx, m *c19Model) {
 	r := c.Rule("R5", "values returned = quantity requested (server byte count ∘ decoder count)", 2)
-	reqB := kit.AnalyseBounds(c.P, m.Req)
 	for _, dec := range m.Decoders {
 		c.Analysed(dec)
-		info := dec.Info()
 		elemT := dec.Obj.Type().(*types.Signature).Results().At(0).Type().Underlying().(*types.Slice).Elem()
 		unit := "register count"
 		if b, ok := elemT.Underlying().(*types.Basic); ok && b.Kind() == types.Bool {
 			unit = "bit count"
 		}
 		o := r.Ob(dec, nil, unit, "for every quantity c of the protocol range the decoder returns exactly c values from the response the server builds for c")
-		codes := m.acceptedCodes(dec)
-		if len(codes) == 0 {
+		codes, okCodes := m.acceptedCodes(dec)
+		if !okCodes || len(codes) == 0 {
 			o.Undecided("cannot determine the function codes accepted by %s", dec.Name)
 			continue
 		}
@@ -282,28 +405,28 @@ func c19R5(c *kit.Ctx, m *c19Model) {
 			o.Undecided("no quantity in %s", arm.label())
 			continue
 		}
-		// server side: the value stored into response data[0] as a function of the quantity
+		// server side: the value stored into byte 0 of the response data (a
+		// byte slice: the response's data field or a local that becomes it)
+		// as a function of the quantity
+		reqB := kit.AnalyseBounds(c.P, q.fn)
+		rinfo := q.fn.Info()
 		var fLin *kit.Lin
 		var fEnv *kit.Env
 		var fText string
 		nStores := 0
-		ast.Inspect(arm.Clause, func(n ast.Node) bool {
+		ast.Inspect(q.region, func(n ast.Node) bool {
 			as, ok := n.(*ast.AssignStmt)
-			if !ok || len(as.Lhs) != 1 || len(as.Rhs) != 1 {
+			if !ok || len(as.Lhs) != 1 || len(as.Rhs) != 1 || as.Tok != token.ASSIGN {
 				return true
 			}
 			ix, ok := ast.Unparen(as.Lhs[0]).(*ast.IndexExpr)
 			if !ok {
 				return true
 			}
-			if k, isC := kit.ConstInt(m.Req.Info(), ix.Index); !isC || k != 0 {
+			if k, isC := kit.ConstInt(rinfo, ix.Index); !isC || k != 0 {
 				return true
 			}
-			sel, ok := ast.Unparen(ix.X).(*ast.SelectorExpr)
-			if !ok {
-				return true
-			}
-			if s, ok := m.Req.Info().Selections[sel]; !ok || s.Obj() != m.DataField {
+			if t := rinfo.TypeOf(ix.X); t == nil || !mbIsByteSlice(t) || m.isReqData(q.fn, ix.X) {
 				return true
 			}
 			nStores++
@@ -312,7 +435,7 @@ func c19R5(c *kit.Ctx, m *c19Model) {
 			if fs != nil && t != nil {
 				fEnv = reqB.EnvAt(fs, nil)
 				fLin = fEnv.LinOf(t)
-				fText = m.Req.Str(as.Rhs[0])
+				fText = q.fn.Str(as.Rhs[0])
 			}
 			return true
 		})
@@ -327,57 +450,9 @@ func c19R5(c *kit.Ctx, m *c19Model) {
 			continue
 		}
 		// decoder side: the length of the returned slice as a function of data[0]
-		decB := kit.AnalyseBounds(c.P, dec)
-		var gLin *kit.Lin
-		var gText string
-		okShape := true
-		ast.Inspect(dec.Body, func(n ast.Node) bool {
-			ret, ok := n.(*ast.ReturnStmt)
-			if !ok || len(ret.Results) != 2 || !kit.IsNilIdent(info, ret.Results[1]) {
-				return true
-			}
-			v := kit.ObjOf(info, ret.Results[0])
-			if v == nil {
-				okShape = false
-				return true
-			}
-			// the unique make that defines the returned slice
-			var mk *ast.AssignStmt
-			nDefs := 0
-			ast.Inspect(dec.Body, func(x ast.Node) bool {
-				as, ok := x.(*ast.AssignStmt)
-				if !ok {
-					return true
-				}
-				for i, l := range as.Lhs {
-					if kit.ObjOf(info, l) == v && i < len(as.Rhs) {
-						nDefs++
-						if call, ok := ast.Unparen(as.Rhs[i]).(*ast.CallExpr); ok {
-							if bi, ok := kit.Callee(info, call).(*types.Builtin); ok && bi.Name() == "make" && len(call.Args) == 2 {
-								mk = as
-							}
-						}
-					}
-				}
-				return true
-			})
-			if mk == nil || nDefs != 1 {
-				okShape = false
-				return true
-			}
-			call := ast.Unparen(mk.Rhs[0]).(*ast.CallExpr)
-			fs, _ := decB.FactsBefore(mk)
-			t := decB.Term(call.Args[1])
-			if fs == nil || t == nil {
-				okShape = false
-				return true
-			}
-			gLin = decB.EnvAt(fs, nil).LinOf(t)
-			gText = dec.Str(call.Args[1])
-			return true
-		})
-		if !okShape || gLin == nil {
-			o.Undecided("the slice returned by %s is not a single make([]T, n) with a trackable n", dec.Name)
+		gLin, _, gText, why := m.returnedLen(dec, 0)
+		if why != "" || gLin == nil {
+			o.Undecided("%s", why)
 			continue
 		}
 		gAtoms := gLin.Atoms()
